@@ -146,7 +146,38 @@ func C09Scenarios(tier string) []*h.Scenario {
 	s6.Name = "c09.lister-faults"
 	s6.Slots = 5
 	s6.FaultOps = map[string]bool{sim.OpListNodes: true, sim.OpListPods: true}
-	return []*h.Scenario{s, &s2, &s3, &s4, &s5, &s6}
+	// more nodes than max_nodes: every scan takes the over-maximum exit, whatever is cordoned
+	g7 := g
+	g7.Opts.MaxNodes = 4
+	s7 := *s
+	s7.Name = "c09.over-max"
+	s7.Groups = []h.GroupSpec{g7}
+	s7.Slots = 4
+	// a group in dry mode by its own option: a cordoned node still carries a real, long-expired escalator
+	// taint from before the switch to dry mode
+	g8 := g
+	g8.Opts.DryMode = true
+	g8.Opts.MinNodes = 0
+	s8 := *s
+	s8.Name = "c09.dry-group"
+	s8.Groups = []h.GroupSpec{g8}
+	s8.Slots = 5
+	s8.Init = func(hh *h.Hist) {
+		a := InitASGs(hh)[0]
+		n1 := hh.W.AddNode(a, sim.NodeOpt{Age: 20 * Q})
+		hh.W.AddPod(podOn(g8, n1.Name, 50))
+		hh.W.AddNode(a, sim.NodeOpt{Age: 21 * Q})
+		hh.W.AddNode(a, sim.NodeOpt{Age: 30 * Q, Cordoned: true, TaintAge: dp(8 * Q)})
+		hh.W.AddNode(a, sim.NodeOpt{Age: 31 * Q, Cordoned: true})
+	}
+	s8.Events = func(hh *h.Hist, slot int) []h.Event {
+		var ev []h.Event
+		for _, n := range groupNodes(hh, g8, 4) {
+			ev = append(ev, evCordon(n.Name, !n.Spec.Unschedulable), evExtTaint(n.Name, "now-5q"))
+		}
+		return append(ev, evRestart())
+	}
+	return []*h.Scenario{s, &s2, &s3, &s4, &s5, &s6, &s7, &s8}
 }
 
 func init() {
